@@ -937,10 +937,14 @@ func (l *lexer) print(w ast.Word) string {
 
 func (l *lexer) scanToken() int {
 	var blank bool
-	if len(l.aliases) != 0 {
-		if a := l.aliases[len(l.aliases)-1]; a.value.Len() == 0 {
-			blank = a.blank
+	// the innermost alias which has been read to its end decides, unless it
+	// is the last word of the value of another alias which also ends here
+	for i := len(l.aliases) - 1; i >= 0 && !blank; i-- {
+		a := l.aliases[i]
+		if a.value.Len() != 0 {
+			break
 		}
+		blank = a.blank
 	}
 Scan:
 	tok := l.scanRawToken()
